@@ -65,6 +65,20 @@ func init() {
 				}
 			}
 		}
+		if in["customlen"] != "" {
+			want := sc.SASL[len("custom:"):]
+			pay := chunks
+			if len(want)%400 == 0 {
+				if len(chunks) == 0 || chunks[len(chunks)-1] != "+" {
+					c.R.Violation("c09.lone_plus", hin, fmt.Sprintf("%d chunks, last %q", len(chunks), lastOf(chunks)), "+", "the last chunk is exactly 400 bytes but no lone '+' followed")
+				} else {
+					pay = chunks[:len(chunks)-1]
+				}
+			}
+			if strings.Join(pay, "") != want {
+				c.R.Violation("c09.exact", hin, fmt.Sprintf("len=%d", len(strings.Join(pay, ""))), fmt.Sprintf("len=%d", len(want)), "concatenated AUTHENTICATE chunks differ from the mechanism's response")
+			}
+		}
 		// fail closed
 		if sc.SASL != "" && in["authstarted"] == "1" {
 			if capEndAt >= 0 && successAt < 0 {
@@ -146,13 +160,18 @@ func runC09Protocol(c *Ctx) {
 	r := c.R
 	for i := 0; i < 120*c.Scale; i++ {
 		in := map[string]string{"nick": "me", "check": "c09", "nosts": "1"}
-		passLen := c.Rng.Pick([]string{"8", "40", "291", "292", "293", "294", "295", "296", "592", "593", "594", "595", "596", "900", "2000"})
-		var n int
-		fmt.Sscan(passLen, &n)
+		// choose the password length so that the base64 response lands on / next to a multiple of 400
+		target := []int{20, 100, 396, 400, 404, 796, 800, 804, 1196, 1200, 1204, 1600, 2000, 2800}[c.Rng.Intn(14)]
+		user := c.Rng.Pick([]string{"user", "u", "account\xe9"})
+		raw := target/4*3 - c.Rng.Intn(3)
+		n := raw - (2*len(user) + 2 + 7)
+		if n < 0 {
+			n = 0
+		}
 		pass := "S3cr3t!" + c.Rng.From("abcdefghijklmnopqrstuvwxyz0123456789+/=", n)
 		kind := c.Rng.Pick([]string{"plain", "plain", "plain", "external", "custom"})
 		in["sasl"] = kind
-		in["sasluser"], in["saslpass"] = c.Rng.Pick([]string{"user", "u", "account\xe9"}), pass
+		in["sasluser"], in["saslpass"] = user, pass
 		if kind == "custom" {
 			in["sasl"] = "custom:" + c.Rng.Pick([]string{"cmVzcG9uc2U=", "cmVzcG9uc2U=\x00c2Vjb25k", "", strings.Repeat("QUJD", 100), strings.Repeat("QUJD", 200) + "QQ=="})
 			if in["sasl"] == "custom:" {
@@ -191,6 +210,16 @@ func runC09Protocol(c *Ctx) {
 		if i < 1 {
 			r.Sample(steps)
 		}
+	}
+	// the chunk loop on exact response lengths (custom mechanism answering with L bytes)
+	for _, L := range []int{1, 2, 399, 400, 401, 799, 800, 801, 1199, 1200, 1201, 1599, 1600, 1601, 2000, 2400} {
+		resp := strings.Repeat("QUJD", L/4) + "QUJD"[:L%4]
+		in := map[string]string{"nick": "me", "check": "c09", "nosts": "1", "sasl": "custom:" + resp, "authstarted": "1", "invite": "+", "customlen": fmt.Sprint(L)}
+		steps := []string{"R:srv CAP * LS :sasl", "R:srv CAP * ACK :sasl", "RAUTHENTICATE +", "R:srv 903 me :ok"}
+		stepsToIn(in, steps)
+		c.run("session", in)
+		r.Count(fmt.Sprint("chunk-session", L), true, "chunk-lengths-session")
+		r.Traces++
 	}
 	// OPER through the helper: the password must not be logged either
 	for i := 0; i < 10*c.Scale; i++ {
